@@ -137,6 +137,10 @@ func (g Gateway) RegisterSwamp(_ context.Context, in *hydrapb.RegisterSwampReque
 		return nil, status.Error(codes.InvalidArgument, "SwampPattern cannot be empty")
 	}
 
+	if strings.Count(in.SwampPattern, "/") < 2 {
+		return nil, status.Error(codes.InvalidArgument, "SwampPattern must have the form sanctuary/realm/swamp")
+	}
+
 	// try to create the pattern from the input string
 	swampPattern := name.Load(in.SwampPattern)
 
@@ -180,6 +184,10 @@ func (g Gateway) DeRegisterSwamp(_ context.Context, in *hydrapb.DeRegisterSwampR
 	if in.SwampPattern == "" {
 		// return with grpc error message
 		return nil, status.Error(codes.InvalidArgument, "SwampPattern cannot be empty")
+	}
+
+	if strings.Count(in.SwampPattern, "/") < 2 {
+		return nil, status.Error(codes.InvalidArgument, "SwampPattern must have the form sanctuary/realm/swamp")
 	}
 
 	// try to create the pattern from the input string
@@ -2955,6 +2963,9 @@ func checkSwampName(zeusInterface zeus.Zeus, islandID uint64, inputSwampName str
 	if inputSwampName == "" {
 		// return with grpc error message
 		return nil, status.Error(codes.InvalidArgument, "SwampName cannot be empty")
+	}
+	if strings.Count(inputSwampName, "/") < 2 {
+		return nil, status.Error(codes.InvalidArgument, "SwampName must have the form sanctuary/realm/swamp")
 	}
 	swampName := name.Load(inputSwampName)
 
